@@ -24,7 +24,7 @@ Theorem C11_accessors_gated_by_state :
      acc_set (gen_dyn m) a dd v =
        (Build_dyn (Some (Build_tmachine (tm_state tm) (tm_ctx tm) (slot_set (ss_field sp) (Some v) (tm_slots tm)))), None) /\
      acc_read a (fst (acc_set (gen_dyn m) a dd v)) = Some v /\
-     acc_read a (fst (acc_write a dd v)) = Some v /\
+     (exists old, acc_read a dd = Some old /\ acc_read a (fst (acc_write a dd v)) = Some (old + v)) /\
      (forall sp', In sp' (m_storage m) -> ss_field sp' <> ss_field sp ->
         slot_get (ss_field sp') (slot_set (ss_field sp) (Some v) (tm_slots tm)) = slot_get (ss_field sp') (tm_slots tm))) /\
   (tm_state tm <> ss_state sp ->
@@ -55,7 +55,7 @@ Qed.
 Example C11_example :
   map (obs_str ex_gir) (run_script ex_gir HNone [ODynNew 3; OSet "D2" 9; OSet "A" 8; OMut "A" 4; OInto "A"])
   = ["ok||c=|p=|n=0|D:A:0/-"; "err:WS(D2,A,set_d2_data)||c=|p=|n=0|D:A:0/-"; "ok||c=|p=|n=0|D:A:8/-";
-     "wrote:1||c=|p=|n=0|D:A:4/-"; "conv:ok||c=|p=|n=0|T:A:4/-:4"]%string.
+     "wrote:1||c=|p=|n=0|D:A:12/-"; "conv:ok||c=|p=|n=0|T:A:12/-:12"]%string.
 Proof. vm_compute. reflexivity. Qed.
 
 Print Assumptions C11_accessors_gated_by_state.
